@@ -162,8 +162,9 @@ Section LevelA.
   Qed.
   Lemma prealloc_range n : 0 <= prealloc n /\ prealloc n <= c_PreallocateLimit.
   Proof.
-    unfold prealloc, c_PreallocateLimit. destruct (Z.gtb_spec n 0); [|lia].
-    pose proof (Z.rem_bound_pos n 1024 ltac:(lia) ltac:(lia)). lia.
+    assert (P : 0 < c_PreallocateLimit) by reflexivity.
+    unfold prealloc. destruct (Z.gtb_spec n 0); [|lia].
+    pose proof (Z.rem_bound_pos n c_PreallocateLimit ltac:(lia) P). lia.
   Qed.
   Lemma make_cap_prealloc n : make_cap (prealloc n) = Ok tt.
   Proof. unfold make_cap. destruct (prealloc_range n). destruct (Z.ltb_spec (prealloc n) 0); [lia|reflexivity]. Qed.
@@ -240,8 +241,9 @@ Qed.
 (* ------------------------------------------------------------------ *)
 Theorem prealloc_bound n : 0 <= prealloc n <= c_PreallocateLimit.
 Proof.
-  unfold prealloc, c_PreallocateLimit. destruct (Z.gtb_spec n 0); [|lia].
-  pose proof (Z.rem_bound_pos n 1024 ltac:(lia) ltac:(lia)). lia.
+  assert (P : 0 < c_PreallocateLimit) by reflexivity.
+  unfold prealloc. destruct (Z.gtb_spec n 0); [|lia].
+  pose proof (Z.rem_bound_pos n c_PreallocateLimit ltac:(lia) P). lia.
 Qed.
 
 (* ------------------------------------------------------------------ *)
